@@ -425,7 +425,7 @@ fn kinds(amounts: usize, owners: u8) -> Vec<Kind> {
 fn subjects(cli: &Cli) -> Vec<C36> {
     let t = cli.tier;
     vec![
-        C36 { name: "both-indexations".into(), kinds: kinds(t.pick(2, 3), 2), max_per_block: 3, max_events: t.pick(4, 6), max_blocks: t.pick(3, 4), availability: None },
+        C36 { name: "both-indexations".into(), kinds: kinds(t.pick(2, 3), 2), max_per_block: 3, max_events: t.pick(4, 5), max_blocks: t.pick(3, 4), availability: None },
         C36 { name: "deep-one-owner".into(), kinds: kinds(2, 1), max_per_block: 3, max_events: t.pick(6, 8), max_blocks: t.pick(3, 4), availability: None },
         C36 { name: "balances-only".into(), kinds: kinds(2, 2), max_per_block: 3, max_events: t.pick(3, 4), max_blocks: 3, availability: Some(vec![IndexationKind::Balances]) },
         C36 { name: "coins-to-spend-only".into(), kinds: kinds(2, 2), max_per_block: 3, max_events: t.pick(3, 4), max_blocks: 3, availability: Some(vec![IndexationKind::CoinsToSpend]) },
